@@ -313,6 +313,20 @@ impl MS {
                 MO::Vector(_) => s.push_str(" 'empty-vector"),
             }
         }
+        // equal? between the pool as the operations left it and the same data read as a literal, both ways round
+        // (objects made by different procedures may be represented differently inside the VM)
+        let lit = self.show_pool();
+        let has_unspecified = self.slots.iter().any(|v| *v == MV::Unspec)
+            || self.objs.iter().any(|o| match o {
+                MO::Pair(a, d) => *a == MV::Unspec || *d == MV::Unspec,
+                MO::Vector(xs) => xs.iter().any(|x| *x == MV::Unspec),
+            });
+        if has_unspecified {
+            // an unspecified element (make-vector without a fill) has no literal
+            s.push_str(" '(same #t #t)");
+        } else {
+            s.push_str(&format!(" (list 'same (equal? (list p0 p1 p2 p3) '{}) (equal? '{} (list p0 p1 p2 p3)))", lit, lit));
+        }
         s.push(')');
         s
     }
@@ -441,6 +455,9 @@ impl OpInst {
             "move" => args[0].clone(),
             "map1" => format!("(map {} {})", ["(lambda (x) x)", "(lambda (x) (cons x x))", "vector"][self.sel], args[0]),
             "map2" => format!("(map cons {} {})", args[0], args[1]),
+            // individual arguments before the final list reach the callee as the very same objects
+            "apply-list" => format!("(apply list {} (list {}))", args[0], args[1]),
+            "apply-identity" => format!("(apply (lambda (x) x) {} '())", args[0]),
             "for-each" => format!("(begin (set! tmp '()) (for-each (lambda (x) (set! tmp (cons x tmp))) {}) tmp)", args[0]),
             "for-each2" => format!("(begin (set! tmp '()) (for-each (lambda (x y) (set! tmp (cons (cons x y) tmp))) {} {}) tmp)", args[0], args[1]),
             n => format!("({} {})", n, args.join(" ")),
@@ -488,10 +505,11 @@ impl OpInst {
                 }
                 _ => NotEnabled,
             },
-            "list" => {
+            "list" | "apply-list" => {
                 let items: Vec<MV> = (0..self.args.len()).map(|i| self.val(s, i)).collect();
                 Value(s.mk_list(&items, MV::Nil))
             }
+            "apply-identity" => Value(a0),
             "length" => {
                 if !s.is_listish(&a0) {
                     return NotEnabled;
@@ -813,6 +831,8 @@ pub fn alphabet() -> Vec<OpInst> {
             add("map2", vec![a.clone(), b.clone()], 0);
         }
         add("for-each2", vec![a.clone(), Arg::Slot(0)], 0);
+        add("apply-identity", vec![a.clone()], 0);
+        add("apply-list", vec![a.clone(), Arg::Slot(1)], 0);
         for k in [-1i64, 0, 1, 2, 3, 4] {
             add("list-tail", vec![a.clone(), lit(MV::I(k))], 0);
             add("list-ref", vec![a.clone(), lit(MV::I(k))], 0);
@@ -969,8 +989,13 @@ fn vm(st: &mut St) -> &mut Impl {
 
 /// Compare the observation the VM returned with the model state. Returns a description on mismatch.
 fn check_observation(ms: &MS, obs: &Cell) -> Result<(), String> {
-    let dumps: Vec<&Cell> = obs.iter().collect();
+    let mut dumps: Vec<&Cell> = obs.iter().collect();
     let expected = ms.expected_observation();
+    if let Some(last) = dumps.pop() {
+        if format!("{:#}", last) != "(same #t #t)" {
+            return Err(format!("equal? with the pool read as a literal {}: observed {:#} (first: pool vs literal, second: literal vs pool)", ms.show_pool(), last));
+        }
+    }
     if dumps.len() != expected.len() {
         return Err(format!("observation has {} dumps, expected {}", dumps.len(), expected.len()));
     }
@@ -1273,7 +1298,7 @@ pub fn run(ctx: &Ctx) -> i32 {
     rep.extra("operation_instances_in_alphabet", json!(ops.len()));
     rep.extra("state_cap_hit", json!(cap_hit));
     rep.rule = format!(
-        "Breadth-first search to depth {} from 9 initial pools over a reference store model: 4 named slots holding scalars (0 1 a #t () #\\x, small integers) or references into a store of pairs and vectors (spine <= 3, vector length <= 3, <= 8 objects, acyclic), canonicalised by renaming locations in first-visit order and dropping unreachable objects (sound because the language cannot observe addresses). Alphabet: {} operation instances over the slots (cons car cdr set-car! set-cdr! list length append reverse list-tail list-ref memq memv member assq assv assoc map (3 procedures, 1 and 2 lists) for-each (1 and 2 lists) list? vector make-vector vector-length vector-ref vector-set! vector-fill! vector->list list->vector vector-copy (with start) vector-copy! (at, start, end incl. overlapping) equal? and moves), indices from -1..len+1 and 2^62; an instance is enabled only where R7RS fixes the outcome. Every transition is executed on the real VM: the state is built from its canonical form, the operation applied, and the result (value vs required error) and the whole pool afterwards compared with the model: contents by value, identity by writing a marker through each object in turn and comparing which paths show it. Shortest paths of a sub-set of states are replayed from the initial pool in a fresh VM (state reached by operations = state built directly). Non-trivial = a transition whose outcome and full pool observation agreed.",
+        "Breadth-first search to depth {} from 9 initial pools over a reference store model: 4 named slots holding scalars (0 1 a #t () #\\x, small integers) or references into a store of pairs and vectors (spine <= 3, vector length <= 3, <= 8 objects, acyclic), canonicalised by renaming locations in first-visit order and dropping unreachable objects (sound because the language cannot observe addresses). Alphabet: {} operation instances over the slots (cons car cdr set-car! set-cdr! list length append reverse list-tail list-ref memq memv member assq assv assoc map (3 procedures, 1 and 2 lists) for-each (1 and 2 lists) list? vector make-vector vector-length vector-ref vector-set! vector-fill! vector->list list->vector vector-copy (with start) vector-copy! (at, start, end incl. overlapping) equal?, apply with individual arguments before the list, and moves), indices from -1..len+1 and 2^62; an instance is enabled only where R7RS fixes the outcome. Every transition is executed on the real VM: the state is built from its canonical form, the operation applied, and the result (value vs required error) and the whole pool afterwards compared with the model: contents by value (also through equal? against the pool read as a literal, both ways round), identity by writing a marker through each object in turn and comparing which paths show it. Shortest paths of a sub-set of states are replayed from the initial pool in a fresh VM (state reached by operations = state built directly). Non-trivial = a transition whose outcome and full pool observation agreed.",
         depth_done, ops.len()
     );
     rep.assumptions.push("memq/assq/memv/assv get keys on which eq?/eqv? are fully specified; vector-copy's end argument is excluded (pinned non-R7RS meaning); calls whose outcome R7RS leaves open (car of a non-pair, assq on a list with non-pair elements, ...) are not enabled".into());
